@@ -36,14 +36,17 @@ struct Tot {
     /// executions in which the any-errors flag was compared with what was reported / of these, nothing reported
     flag_judged: u64,
     flag_judged_clean: u64,
+    /// executions of the "stop cause, then fatal error" scenarios in which the reader did run into the damaged RDH
+    fatal_reached: u64,
 }
 
 fn explore_stop(rep: &mut Reporter, tot: &mut Tot, scn: &Scn, cap_override: Option<usize>, bound: usize, label: &str, expected_output: Option<&[u8]>) {
-    explore_stop_x(rep, tot, scn, cap_override, bound, label, expected_output, false)
+    explore_stop_x(rep, tot, scn, cap_override, bound, label, expected_output, false, None)
 }
 
 /// What one execution must satisfy (shared by the exploration and by the replay of a stored schedule).
-fn judge(r: &fp_sched::core::ExecResult, o: &scenario::Obs, scn: &Scn, expected_output: Option<&[u8]>, must_stop: bool, full_caps: &[usize], tot: &mut Tot) -> Vec<(String, String)> {
+#[allow(clippy::too_many_arguments)]
+fn judge(r: &fp_sched::core::ExecResult, o: &scenario::Obs, scn: &Scn, expected_output: Option<&[u8]>, must_stop: bool, fatal_at: Option<usize>, full_caps: &[usize], tot: &mut Tot) -> Vec<(String, String)> {
     let mut out: Vec<(String, String)> = Vec::new();
         match &r.outcome {
             Outcome::Completed => {}
@@ -80,6 +83,22 @@ fn judge(r: &fp_sched::core::ExecResult, o: &scenario::Obs, scn: &Scn, expected_
                 let total = es["total_errors"].as_u64().unwrap_or(0);
                 let fatal = !es["fatal_error"].is_null();
                 let reported = total > 0 || fatal || o.process_result.is_some();
+                // a fatal input error that ended the reading is recorded as such, whatever else happened before. The
+                // reader looks at the stop flag between batches only: once it has loaded a packet of the batch that holds
+                // the damaged RDH it runs into that RDH
+                if o.process_result.is_some() && !fatal {
+                    out.push(("stop:fatal-error-not-recorded".into(), format!("processing ended with the fatal error {:?}, the statistics record no fatal error ({total} errors listed)", o.process_result)));
+                }
+                if let Some(k) = fatal_at {
+                    let seen = st["rdh_stats"]["rdhs_seen"].as_u64().unwrap_or(0) as usize;
+                    let batch_start = (k / scn.cap.max(1)) * scn.cap.max(1);
+                    if seen > batch_start && !fatal {
+                        out.push(("stop:fatal-error-not-recorded".into(), format!("{seen} RDHs were read, so the reader ran into the damaged RDH of packet {k}; the statistics record no fatal error")));
+                    }
+                    if seen > batch_start {
+                        tot.fatal_reached += 1;
+                    }
+                }
                 if o.any_errors != reported {
                     out.push((format!("stop:any-errors-flag-{}", if o.any_errors { "set-without-a-reported-error" } else { "not-set-although-errors-were-reported" }), format!("any-errors flag = {}, the statistics list {total} errors, fatal error present = {fatal}, processing result {:?}", o.any_errors, o.process_result)));
                 }
@@ -105,7 +124,7 @@ fn judge(r: &fp_sched::core::ExecResult, o: &scenario::Obs, scn: &Scn, expected_
 /// `must_stop`: the stream carries at least as many errors as the configured cap, so in every execution the
 /// controller must raise the stop flag (the run is cut short by reaching the cap, not one error later).
 #[allow(clippy::too_many_arguments)]
-fn explore_stop_x(rep: &mut Reporter, tot: &mut Tot, scn: &Scn, cap_override: Option<usize>, bound: usize, label: &str, expected_output: Option<&[u8]>, must_stop: bool) {
+fn explore_stop_x(rep: &mut Reporter, tot: &mut Tot, scn: &Scn, cap_override: Option<usize>, bound: usize, label: &str, expected_output: Option<&[u8]>, must_stop: bool, fatal_at: Option<usize>) {
     let cfg = scenario::config(scn);
     let base = Policy { prefix: vec![], max_steps: 30_000, yield_on_unbounded_send: false, cap_override, descending: false };
     let mut problems: Vec<(String, String, Vec<usize>)> = Vec::new();
@@ -117,7 +136,7 @@ fn explore_stop_x(rep: &mut Reporter, tot: &mut Tot, scn: &Scn, cap_override: Op
     let full_caps: Vec<usize> = cap_override.into_iter().collect();
     let st = explore(bound, 2_000_000, &mut run, &mut |prefix, r| {
         let o = LAST.with(|l| l.borrow_mut().take()).unwrap();
-        for (sig, d) in judge(r, &o, scn, expected_output, must_stop, &full_caps, tot) {
+        for (sig, d) in judge(r, &o, scn, expected_output, must_stop, fatal_at, &full_caps, tot) {
             problems.push((sig, d, prefix.to_vec()));
         }
         true
@@ -360,6 +379,8 @@ struct Job {
     label: String,
     expected_output: Option<Vec<u8>>,
     must_stop: bool,
+    /// index of the packet whose RDH carries a fatal framing error, if any
+    fatal_at: Option<usize>,
 }
 
 /// The scheduler scenarios and the number of errors the faulty stream produces in an uncapped reference execution.
@@ -378,7 +399,7 @@ fn jobs(tier: Tier) -> (Vec<Job>, u32) {
                 continue;
             }
             let scn = Scn { mode, mute: false, max_errors: 0, signal: true, cap: 2, input: input.clone(), scratch: scratch(), toml: false };
-            jobs.push(Job { scn, cap_override: Some(cap), bound, label: format!("signal, {:?}, queue capacity {cap}, 8 packets in batches of 2", mode), expected_output: None, must_stop: false });
+            jobs.push(Job { scn, cap_override: Some(cap), bound, label: format!("signal, {:?}, queue capacity {cap}, 8 packets in batches of 2", mode), expected_output: None, must_stop: false, fatal_at: None });
         }
         // (d) writer
         let expected: Vec<u8> = {
@@ -386,22 +407,31 @@ fn jobs(tier: Tier) -> (Vec<Job>, u32) {
             w.iter().filter(|x| x.rdh.link_id == 0).flat_map(|x| clean3[x.offset as usize..x.payload.1].to_vec()).collect()
         };
         let scn = Scn { mode: Mode::Write(0), mute: false, max_errors: 0, signal: true, cap: 1, input: clean3.clone(), scratch: scratch(), toml: false };
-        jobs.push(Job { scn, cap_override: Some(cap), bound, label: format!("signal, filtered writing of link 0, queue capacity {cap}"), expected_output: Some(expected), must_stop: false });
+        jobs.push(Job { scn, cap_override: Some(cap), bound, label: format!("signal, filtered writing of link 0, queue capacity {cap}"), expected_output: Some(expected), must_stop: false, fatal_at: None });
     }
     // (a2) a second stop cause behind the first: the signal, or the error cap, followed by a fatal framing error later
     //      in the stream - the fatal error must be recorded and flagged whenever the reader still ran into it
     {
         let w = stream::walk(&faulty3).0;
         for at in [2usize, 5] {
+            // (on otherwise clean data too: the fatal error is then the only thing to report)
+            {
+                let mut b = (*clean3).clone();
+                let off = stream::walk(&clean3).0[at].offset as usize;
+                b[off + 8] = 0x10;
+                b[off + 9] = 0;
+                let scn = Scn { mode: Mode::AllIts, mute: false, max_errors: 0, signal: true, cap: 2, input: Arc::new(b), scratch: scratch(), toml: false };
+                jobs.push(Job { scn, cap_override: Some(1), bound, label: format!("signal, then a fatal framing error at packet {at} of clean data, queue capacity 1"), expected_output: None, must_stop: false, fatal_at: Some(at) });
+            }
             let mut b = (*faulty3).clone();
             let off = w[at].offset as usize;
             b[off + 8] = 0x10;
             b[off + 9] = 0;
             let input = Arc::new(b);
             let scn = Scn { mode: Mode::AllIts, mute: false, max_errors: 0, signal: true, cap: 2, input: input.clone(), scratch: scratch(), toml: false };
-            jobs.push(Job { scn, cap_override: Some(1), bound, label: format!("signal, then a fatal framing error at packet {at}, queue capacity 1"), expected_output: None, must_stop: false });
+            jobs.push(Job { scn, cap_override: Some(1), bound, label: format!("signal, then a fatal framing error at packet {at}, queue capacity 1"), expected_output: None, must_stop: false, fatal_at: Some(at) });
             let scn = Scn { mode: Mode::AllIts, mute: false, max_errors: 1, signal: false, cap: 2, input, scratch: scratch(), toml: false };
-            jobs.push(Job { scn, cap_override: Some(1), bound, label: format!("error cap -e 1, then a fatal framing error at packet {at}, queue capacity 1"), expected_output: None, must_stop: false });
+            jobs.push(Job { scn, cap_override: Some(1), bound, label: format!("error cap -e 1, then a fatal framing error at packet {at}, queue capacity 1"), expected_output: None, must_stop: false, fatal_at: Some(at) });
         }
     }
     // (b) error cap for every N
@@ -417,7 +447,7 @@ fn jobs(tier: Tier) -> (Vec<Job>, u32) {
             continue;
         }
         let scn = Scn { mode: Mode::AllIts, mute: false, max_errors: n, signal: false, cap: 2, input: faulty3.clone(), scratch: scratch(), toml: false };
-        jobs.push(Job { scn, cap_override: Some(1), bound, label: format!("error cap -e {n}, queue capacity 1"), expected_output: None, must_stop: true });
+        jobs.push(Job { scn, cap_override: Some(1), bound, label: format!("error cap -e {n}, queue capacity 1"), expected_output: None, must_stop: true, fatal_at: None });
     }
     // (c) fatal framing error at every packet index
     let npk = stream::walk(&clean3).0.len();
@@ -431,7 +461,7 @@ fn jobs(tier: Tier) -> (Vec<Job>, u32) {
                 continue;
             }
             let scn = Scn { mode: Mode::AllIts, mute: false, max_errors: 0, signal: false, cap: 2, input: Arc::new(b.clone()), scratch: scratch(), toml: false };
-            jobs.push(Job { scn, cap_override: Some(cap), bound, label: format!("fatal framing error at packet {i}, queue capacity {cap}"), expected_output: None, must_stop: false });
+            jobs.push(Job { scn, cap_override: Some(cap), bound, label: format!("fatal framing error at packet {i}, queue capacity {cap}"), expected_output: None, must_stop: false, fatal_at: Some(i) });
         }
     }
     (jobs, total_errors)
@@ -465,9 +495,9 @@ fn replay_file(path: &str) -> i32 {
         say!("REPLAY: the same schedule gave different observations twice (uncontrolled nondeterminism) - not a valid replay");
         return 2;
     }
-    let mut tot = Tot { executions: 0, steps: 0, states: Default::default(), full_queue_seen: false, stop_observed_runs: 0, flag_judged: 0, flag_judged_clean: 0 };
+    let mut tot = Tot { executions: 0, steps: 0, states: Default::default(), full_queue_seen: false, stop_observed_runs: 0, flag_judged: 0, flag_judged_clean: 0, fatal_reached: 0 };
     let full_caps: Vec<usize> = j.cap_override.into_iter().collect();
-    let found = judge(&r1, &o1, &j.scn, j.expected_output.as_deref(), j.must_stop, &full_caps, &mut tot);
+    let found = judge(&r1, &o1, &j.scn, j.expected_output.as_deref(), j.must_stop, j.fatal_at, &full_caps, &mut tot);
     say!("REPLAY: [{label}] schedule {:?}: {:?} after {} steps; {} problem(s)", prefix, r1.outcome, r1.steps.len(), found.len());
     for (s, d) in &found {
         say!("REPLAY:   {s}: {d}");
@@ -481,7 +511,7 @@ pub fn run(tier: Tier, replay: Option<String>, part: Option<usize>) -> i32 {
         return replay_file(&path);
     }
     let mut rep = Reporter::new("C17", tier, "model_checking");
-    let mut tot = Tot { executions: 0, steps: 0, states: Default::default(), full_queue_seen: false, stop_observed_runs: 0, flag_judged: 0, flag_judged_clean: 0 };
+    let mut tot = Tot { executions: 0, steps: 0, states: Default::default(), full_queue_seen: false, stop_observed_runs: 0, flag_judged: 0, flag_judged_clean: 0, fatal_reached: 0 };
     // ---- 3. conformance first: it is what the rest rests on
     let depth = if tier.is_thorough() { 6 } else { 5 };
     let (nseq, dis) = if part.is_none() { conformance::run(depth) } else { (0, None) };
@@ -503,8 +533,8 @@ pub fn run(tier: Tier, replay: Option<String>, part: Option<usize>) -> i32 {
     // the scenarios are explored by worker processes (one controlled execution at a time per process)
     if let Some(k) = part {
         let j = &jobs[k];
-        explore_stop_x(&mut rep, &mut tot, &j.scn, j.cap_override, j.bound, &j.label, j.expected_output.as_deref(), j.must_stop);
-        crate::parts::write_part(&rep.export_part(json!({"executions": tot.executions, "steps": tot.steps, "states": tot.states.iter().collect::<Vec<_>>(), "full_queue_seen": tot.full_queue_seen, "stop_observed_runs": tot.stop_observed_runs, "flag_judged": tot.flag_judged, "flag_judged_clean": tot.flag_judged_clean})));
+        explore_stop_x(&mut rep, &mut tot, &j.scn, j.cap_override, j.bound, &j.label, j.expected_output.as_deref(), j.must_stop, j.fatal_at);
+        crate::parts::write_part(&rep.export_part(json!({"executions": tot.executions, "steps": tot.steps, "states": tot.states.iter().collect::<Vec<_>>(), "full_queue_seen": tot.full_queue_seen, "stop_observed_runs": tot.stop_observed_runs, "flag_judged": tot.flag_judged, "flag_judged_clean": tot.flag_judged_clean, "fatal_reached": tot.fatal_reached})));
         let _ = std::fs::remove_dir_all(scratch());
         return 0;
     }
@@ -520,6 +550,7 @@ pub fn run(tier: Tier, replay: Option<String>, part: Option<usize>) -> i32 {
                 tot.stop_observed_runs += p["stop_observed_runs"].as_u64().unwrap_or(0);
                 tot.flag_judged += p["flag_judged"].as_u64().unwrap_or(0);
                 tot.flag_judged_clean += p["flag_judged_clean"].as_u64().unwrap_or(0);
+                tot.fatal_reached += p["fatal_reached"].as_u64().unwrap_or(0);
             }
         }
     }
@@ -534,6 +565,7 @@ pub fn run(tier: Tier, replay: Option<String>, part: Option<usize>) -> i32 {
         rep.machinery_error(format!("the any-errors flag was judged in {} executions, {} of them without a reported error (vacuous)", tot.flag_judged, tot.flag_judged_clean));
     }
     rep.cov("any_errors_flag_judged_executions", json!(tot.flag_judged));
+    rep.cov("executions_in_which_the_reader_reached_the_damaged_rdh", json!(tot.fatal_reached));
     rep.cov("any_errors_flag_judged_with_nothing_reported", json!(tot.flag_judged_clean));
     // ---- 4. TLA+ model of the shutdown protocol: TLC over all interleavings + trace conformance with the code
     let mut tla_json = Vec::new();
